@@ -63,11 +63,19 @@ func c16Ops() []c16Op {
 	edSk := ed25519.NewKeyFromSeed(edSeed)
 	return []c16Op{
 		{"ed25519.BlindPublicKeyWithContext(pk,blind,ctx)", func(w *c03World, r *Rng) [][]byte { return [][]byte{edSk[32:], r.Bytes(32), r.Bytes(9)} },
-			func(w *c03World, a [][]byte) string { p, err := ed25519.BlindPublicKeyWithContext(a[0], a[1], a[2]); return fmt.Sprint(hxv(p), err == nil) }},
+			func(w *c03World, a [][]byte) string {
+				p, err := ed25519.BlindPublicKeyWithContext(a[0], a[1], a[2])
+				return fmt.Sprint(hxv(p), err == nil)
+			}},
 		{"ed25519.UnblindPublicKeyWithContext(pk,blind,ctx)", func(w *c03World, r *Rng) [][]byte { return [][]byte{edSk[32:], r.Bytes(32), r.Bytes(9)} },
-			func(w *c03World, a [][]byte) string { p, err := ed25519.UnblindPublicKeyWithContext(a[0], a[1], a[2]); return fmt.Sprint(hxv(p), err == nil) }},
+			func(w *c03World, a [][]byte) string {
+				p, err := ed25519.UnblindPublicKeyWithContext(a[0], a[1], a[2])
+				return fmt.Sprint(hxv(p), err == nil)
+			}},
 		{"ed25519.BlindKeySignWithContext(sk,msg,blind,ctx)", func(w *c03World, r *Rng) [][]byte { return [][]byte{edSk, r.Bytes(20), r.Bytes(32), r.Bytes(5)} },
-			func(w *c03World, a [][]byte) string { return hxv(ed25519.BlindKeySignWithContext(a[0], a[1], a[2], a[3])) }},
+			func(w *c03World, a [][]byte) string {
+				return hxv(ed25519.BlindKeySignWithContext(a[0], a[1], a[2], a[3]))
+			}},
 		{"ed25519.BlindPublicKey/BlindKeySign(no ctx)", func(w *c03World, r *Rng) [][]byte { return [][]byte{edSk, r.Bytes(20), r.Bytes(32)} },
 			func(w *c03World, a [][]byte) string {
 				p, _ := ed25519.BlindPublicKey(ed25519.PublicKey(a[0][32:]), a[2])
@@ -97,8 +105,13 @@ func c16Ops() []c16Op {
 				return fmt.Sprint(ok, g.changedAt())
 			}},
 		{"tokens.UnmarshalTokenChallenge", func(w *c03World, r *Rng) [][]byte { return [][]byte{w.resp["challenge"]} },
-			func(w *c03World, a [][]byte) string { c, err := tokens.UnmarshalTokenChallenge(a[0]); return fmt.Sprint(hxv(c.Marshal()), err == nil) }},
-		{"type1/2/3/5 token decoders", func(w *c03World, r *Rng) [][]byte { return [][]byte{w.resp["tok1"], w.resp["tok2"], w.resp["tok3"], w.resp["tok5"]} },
+			func(w *c03World, a [][]byte) string {
+				c, err := tokens.UnmarshalTokenChallenge(a[0])
+				return fmt.Sprint(hxv(c.Marshal()), err == nil)
+			}},
+		{"type1/2/3/5 token decoders", func(w *c03World, r *Rng) [][]byte {
+			return [][]byte{w.resp["tok1"], w.resp["tok2"], w.resp["tok3"], w.resp["tok5"]}
+		},
 			func(w *c03World, a [][]byte) string {
 				t1, _ := type1.UnmarshalPrivateToken(a[0])
 				t2, _ := type2.UnmarshalToken(a[1])
@@ -106,13 +119,17 @@ func c16Ops() []c16Op {
 				t5, _ := type5.UnmarshalBatchedPrivateToken(a[3])
 				return hxv(t1.Marshal()) + hxv(t2.Marshal()) + hxv(t3.Marshal()) + hxv(t5.Marshal()) + hxv(t1.AuthenticatorInput())
 			}},
-		{"request decoders + Marshal", func(w *c03World, r *Rng) [][]byte { return [][]byte{w.resp["req1"], w.resp["req2"], w.resp["req3"], w.resp["req5"], w.resp["inner"], w.resp["batch"]} },
+		{"request decoders + Marshal", func(w *c03World, r *Rng) [][]byte {
+			return [][]byte{w.resp["req1"], w.resp["req2"], w.resp["req3"], w.resp["req5"], w.resp["inner"], w.resp["batch"]}
+		},
 			func(w *c03World, a [][]byte) string {
 				q1, q2, q3, q5, qi, qb := &type1.BasicPrivateTokenRequest{}, &type2.BasicPublicTokenRequest{}, &type3.RateLimitedTokenRequest{}, &type5.BatchedPrivateTokenRequest{}, &type3.InnerTokenRequest{}, &batched.BatchedTokenRequest{}
 				ok := fmt.Sprint(q1.Unmarshal(a[0]), q2.Unmarshal(a[1]), q3.Unmarshal(a[2]), q5.Unmarshal(a[3]), qi.Unmarshal(a[4]), qb.Unmarshal(a[5]))
 				return ok + hxv(q1.Marshal()) + hxv(q2.Marshal()) + hxv(q3.Marshal()) + hxv(q5.Marshal()) + hxv(qi.Marshal()) + hxv(qb.Marshal())
 			}},
-		{"batched.UnmarshalBatchedTokenResponses / util.UnmarshalTokenKey / type3.UnmarshalEncapKey", func(w *c03World, r *Rng) [][]byte { return [][]byte{w.resp["batchresp"], w.resp["spki"], w.resp["encap"]} },
+		{"batched.UnmarshalBatchedTokenResponses / util.UnmarshalTokenKey / type3.UnmarshalEncapKey", func(w *c03World, r *Rng) [][]byte {
+			return [][]byte{w.resp["batchresp"], w.resp["spki"], w.resp["encap"]}
+		},
 			func(w *c03World, a [][]byte) string {
 				rs, e1 := batched.UnmarshalBatchedTokenResponses(a[0])
 				k, e2 := util.UnmarshalTokenKey(a[1])
@@ -148,7 +165,9 @@ func c16Ops() []c16Op {
 			tok, err := st.FinalizeToken(g.slice)
 			return fmt.Sprint(hxv(st.Request().Marshal()), hxv(tok.Marshal()), err == nil, g.changedAt())
 		}},
-		{"type3 attester VerifyRequest/FinalizeIndex", func(w *c03World, r *Rng) [][]byte { return [][]byte{w.cl3.blind, w.cl3.pubEnc, r.Bytes(16), w.resp["brk"]} },
+		{"type3 attester VerifyRequest/FinalizeIndex", func(w *c03World, r *Rng) [][]byte {
+			return [][]byte{w.cl3.blind, w.cl3.pubEnc, r.Bytes(16), w.resp["brk"]}
+		},
 			func(w *c03World, a [][]byte) string {
 				att := type3.NewRateLimitedAttester(newMemCache())
 				e1 := att.VerifyRequest(*w.st3.Request(), a[0], a[1], a[2])
